@@ -7,7 +7,7 @@ use petgraph::adj::List;
 use petgraph::graph::{Graph, NodeIndex};
 use petgraph::visit::{
     depth_first_search, Bfs, Control, Dfs, DfsEvent, DfsPostOrder, IntoNeighbors, IntoNeighborsDirected,
-    EdgeFiltered, EdgeRef, IntoNodeIdentifiers, NodeFiltered, Reversed, Time, Topo, UndirectedAdaptor, Visitable, Walker,
+    EdgeFiltered, EdgeRef, IntoNodeIdentifiers, NodeFiltered, Reversed, Time, Topo, UndirectedAdaptor, VisitMap, Visitable, Walker,
 };
 use petgraph::{Directed, Undirected};
 use proptest::prelude::*;
@@ -109,6 +109,24 @@ where
         }
         ensure!(count <= n, "C08/dfs-too-many", "Dfs from {s} emitted more than {n} nodes");
         ensure_eq!(seen, reach_s, "C08/dfs-set", "Dfs from {s}: emitted set vs reachable set");
+        // the wrapped walker is reachable through WalkerIter and steering it (move_to) shows in the iteration;
+        // a `&mut` walker is a walker, too
+        let mut it = Dfs::new(g, v.id(s)).iter(g);
+        let first = it.next();
+        ensure!(first == Some(v.id(s)), "C08/dfs-first", "Dfs from {s}: first item {first:?}");
+        ensure!(it.inner_ref().discovered.is_visited(&v.id(s)), "C08/walker-iter-inner", "WalkerIter::inner_ref(): the start node is not marked discovered after it was emitted");
+        let other = v.live[pick(c.start.wrapping_mul(31), v.live.len())];
+        it.inner_mut().move_to(v.id(other));
+        let _ = it.context();
+        let nxt = it.next();
+        if let Some(x) = nxt {
+            let l = v.label(x, "Dfs after inner_mut().move_to")?;
+            ensure!(reach_s[l] || reach_within(&adj, other, &all)[l], "C08/walker-iter-inner", "after move_to({other}) through inner_mut() the iterator yields {l}, reachable from neither {s} nor {other}");
+        }
+        let mut dfs2 = Dfs::new(g, v.id(s));
+        let via_ref: Vec<G::NodeId> = (&mut dfs2).iter(g).take(limit).collect();
+        let direct: Vec<G::NodeId> = Dfs::new(g, v.id(s)).iter(g).take(limit).collect();
+        ensure!(via_ref == direct, "C08/walker-by-mut-ref", "iterating `&mut Dfs` gives {via_ref:?}, the walker itself {direct:?}");
     }
 
     // ---- Dfs with move_to phases and a reset ----
@@ -598,6 +616,8 @@ where
     obs.label_if(got.iter().any(|e| matches!(e, Ev::Back(..))), "back edge");
     let pr = (0..got.len()).any(|i| response(script, i, matches!(got[i], Ev::Finish(..))) == 1);
     obs.label_if(pr, "prune used");
+    let broke_at = (0..got.len()).find(|&i| response(script, i, matches!(got[i], Ev::Finish(..))) == 2);
+    ensure_eq!(ret.break_value(), broke_at, "C08/dfsvisit-break-value", "Control::break_value() of the returned control");
     obs.label_if(matches!(ret, Control::Break(_)), "break used");
     if has_cross || pr || matches!(ret, Control::Break(_)) {
         obs.nontrivial = true;
